@@ -425,3 +425,140 @@ def random_history(rng, hid, length=60):
 def random_histories(seed, count, length=60):
     rng = random.Random(seed)
     return [random_history(rng, 'R%d-%d' % (seed, i), length) for i in range(count)]
+
+# ------------------------------------------------------------------------------------------------
+# C17: directories packed with long-name fragment runs (complete, broken, reordered, stale), and garbage
+
+def _csum(name11):
+    s = 0
+    for ch in name11:
+        s = (((s & 1) << 7) + (s >> 1) + ord(ch)) & 0xFF
+    return s
+
+def _names_by_csum(n_each=40):
+    by = {}
+    k = 0
+    while min((len(v) for v in by.values()), default=0) < n_each or len(by) < 256:
+        nm = 'N%07dTXT' % k
+        by.setdefault(_csum(nm), []).append(nm)
+        k += 1
+        if k > 200000:
+            break
+    return by
+
+LFN_SYMS = ['S', 'S=', 'D', 'V', 'Ls1', 'Ls2', 'Lc1', 'Lc2', 'Lx1', 'Lsx1', 'Ls20', 'Ls0', 'Ls3', 'Lc3']
+
+def lfn_directory(seqs, rng):
+    """slot specs for a directory holding the given symbol sequences, each closed by a plain short entry"""
+    by = _names_by_csum()
+    used = {}
+    slots = []
+    last_cs = [None]
+    fragno = [0]
+
+    def fresh_name(cs=None):
+        if cs is None:
+            cs = rng.randrange(256)
+        i = used.get(cs, 0)
+        used[cs] = i + 1
+        return by[cs][i]
+
+    def units(final):
+        fragno[0] += 1
+        txt = [ord(c) for c in 'f%04d' % fragno[0]]
+        style = fragno[0] % 5
+        if style == 1:
+            txt = [0xDE00] + txt            # starts with a low surrogate (pairs with a high one ending the next-on-disk fragment?)
+        if style == 2:
+            txt = txt + [0x20AC, 0xE9]
+        if final:
+            u = txt + [0]
+        else:
+            u = (txt + [0x41 + i % 26 for i in range(13)])[:13]
+            if style == 3:
+                u[12] = 0xD83D             # ends with a high surrogate
+        return u
+
+    for seq in seqs:
+        # checksum the fragments of this sequence refer to: the next short entry of the sequence
+        names = []
+        for sym in seq:
+            if sym in ('S', 'V'):
+                names.append(fresh_name())
+            elif sym == 'S=':
+                names.append(fresh_name(last_cs[0] if last_cs[0] is not None else None))
+            else:
+                names.append(None)
+            if names[-1]:
+                last_cs[0] = _csum(names[-1])
+        for i, sym in enumerate(seq):
+            nxt = next((n for n in names[i:] if n), None)
+            cs = _csum(nxt) if nxt else 0x55
+            if sym in ('S', 'S='):
+                slots.append(dict(t='file', name=names[i], chain=[], units=0))
+            elif sym == 'V':
+                slots.append(dict(t='label', name=names[i]))
+            elif sym == 'D':
+                slots.append(dict(t='del', name='GONE    %03d' % (len(slots) % 1000), chain=[], units=0))
+            else:
+                start = sym.startswith('Ls')
+                wrong = 'x' in sym
+                no = int(sym.lstrip('Lscx'))
+                slots.append(dict(t='lfn', seq=(0x40 if start else 0) | no, csum=(cs ^ 0x5A) if wrong else cs, u=units(no == 1)))
+        sep = fresh_name()
+        last_cs[0] = _csum(sep)
+        slots.append(dict(t='file', name=sep, chain=[], units=0))
+    return slots
+
+def lfn_histories(seed, quick):
+    import itertools
+    rng = random.Random(seed + 17)
+    seqs = [list(s) for n in (1, 2) for s in itertools.product(LFN_SYMS, repeat=n)]
+    if not quick:
+        seqs += [list(s) for s in itertools.product(LFN_SYMS, repeat=3)]
+    for _ in range(250 if quick else 3000):
+        seqs.append([rng.choice(LFN_SYMS) for _ in range(rng.choice([3, 4, 5, 6]))])
+    # well-formed multi-fragment runs
+    for n in (2, 3, 5, 19):
+        seqs.append(['Ls%d' % n] + ['Lc%d' % k for k in range(n - 1, 0, -1)] + ['S'])
+    H = []
+    cur, count = [], 0
+    packs = []
+    for s in seqs:
+        need = len(s) + 1
+        if count + need > 500:
+            packs.append(cur)
+            cur, count = [], 0
+        cur.append(s)
+        count += need
+    if cur:
+        packs.append(cur)
+    for k, pack in enumerate(packs):
+        # 'Ls19' style long runs need Lc symbols beyond the alphabet: handled by lfn_directory generically
+        root = lfn_directory(pack, rng)
+        v, upc, bounds = geom('G16a', tree='T0', nfree=2, bounds=[0])
+        v['root_entries'] = 512
+        v['root'] = root
+        ops = prologue() + [O('iterate_lfn', d='d0', buf=780), O('iterate_lfn', d='d0', buf=rng.choice([0, 3, 5, 8, 20])), O('iterate', d='d0'),
+                            O('find', d='d0', name=root[-1]['name'][:8].strip() + '.' + root[-1]['name'][8:].strip())] + epilogue()[:2]
+        H.append(dict(id='L%d' % k, src='lfn', image=dict(vols=[v]), bounds=bounds, limits=[4, 4, 1], ops=ops, chk='listing'))
+    # arbitrary directory bytes never crash a listing
+    for k in range(6 if quick else 60):
+        raw = []
+        for i in range(rng.choice([16, 40, 200])):
+            b = bytes(rng.randrange(256) for _ in range(32))
+            if rng.random() < 0.3:
+                b = b[:11] + bytes([0x0F]) + b[12:]
+            if b[0] == 0:
+                b = b'\x41' + b[1:]
+            raw.append(dict(t='raw', hex=b.hex()))
+        v, upc, bounds = geom('G16a' if k % 2 == 0 else 'G32a', tree='T0', nfree=2, bounds=[0])
+        if v['fat32']:
+            v['window'] = sorted(set(v['window'] + [3, 4, 5, 6]))
+            v['root_chain'] = [2, 3, 4, 5, 6][: (len(raw) + 15) // 16 + 1]
+        else:
+            v['root_entries'] = 512
+        v['root'] = raw
+        ops = prologue() + [O('iterate_lfn', d='d0', buf=780), O('iterate_lfn', d='d0', buf=7), O('iterate', d='d0')] + epilogue()[:2]
+        H.append(dict(id='LG%d' % k, src='lfn-garbage', image=dict(vols=[v]), bounds=bounds, limits=[4, 4, 1], ops=ops, chk='listing'))
+    return H
